@@ -463,7 +463,8 @@ def part_cdf(sh, np, ode, rec, params):
                              {"fortran_ordered": bool(ci % 3 == 1)}, t)
             if diag_only:
                 tu = ode.SolveUnc(C["m"], C["b"], C["k"], C["h"], **kw)
-                su = tu.tsolve(C["F"].copy(), C["d0"], C["v0"],
+                su = tu.tsolve(np.asfortranarray(C["F"].copy()) if ci % 3 == 1
+                               else C["F"].copy(), C["d0"], C["v0"],
                                static_ic=C["static_ic"])
                 sh.count(f"cell:cdf:diag:order{C['order']}")
                 sh.check_equal("cdf-diag-flag-off", bool(ts.cdforces), False, case, t)
